@@ -1049,8 +1049,26 @@ def gen_cases(prop, tier, seed):
                 r2[k] = (n, kv0 + [(crit, v2)])
                 mk = lambda rs: Cfg(timeout=0, services=base.services, rules=rs)
                 old, chain = mk(r0), [mk(r1), mk(r2)]
+            focused = mods == "class" and i % 6 == 3
+            if focused:
+                # one rule, one criterion edited in place (value changed, or only its letter case), and
+                # probe clients that the rule is about
+                crit, v1, v2 = rng.choice([("hostname", "HOST.EXAMPLE", "host.example"), ("hostname", "host.example", "Host.example"),
+                                           ("hostname", "nomatch", "host.example"), ("class", "Lan", "lan"), ("class", "lan", "LAN"),
+                                           ("username", "IDENT", "ident"), ("username", "ident", "Ident"),
+                                           ("account", "ACCT", "acct"), ("account", "acct", "Acct"), ("account", "nomatch", "acct")])
+                kv0 = [("class", "cls-a")] if crit != "class" else []
+                svcs = [("login.srv", "login")]
+                mk = lambda kv: Cfg(timeout=0, services=svcs, rules=[("a", kv), ("z", [("class", "fallback")])])
+                old, chain = mk(kv0 + [(crit, v1)]), [mk(kv0 + [(crit, v2)])]
+                if rng.random() < 0.4:
+                    old, chain = mk(kv0), [mk(kv0 + [(crit, v1)]), mk(kv0 + [(crit, v2)])]
             new = chain[-1]
             probe = {cid: client_script(rng, cid, new, mods) for cid in rng.sample([1, 2, 5, 7], 2)}
+            if focused:
+                ev = [("C", "1.2.3.4", "1234"), ("line", "N host.example"), ("line", "u ident"), ("line", "n nick"),
+                      ("line", "U user :real name"), ("line", "P :+x acct pass"), ("reply", "X", "login.srv", "OK acct", "cur"), ("line", "H")]
+                probe = {9: ev}
             pops = render_schedule(rng, probe) + [inl("-1 ? :config")]
             cases.append(Case("c17/%d/reload" % i, header(mods, old) + [c.op("reload") for c in chain] + pops + ["eof"],
                               tags={"group": "c17/%d" % i, "role": "reload", "mods": mods, "nreload": len(chain)}))
